@@ -13,6 +13,9 @@ OWNER = {
     "not_a_prefix_of_commit_order": "C05",
     "acknowledged_commit_not_visible": "C05",
     "acknowledged_commit_incomplete": "C05",
+    "snapshot_changed": "C05",
+    "scan_differs_from_get": "C05",
+    "commit_error": "C05",
     "failed_commit_visible": "C15",
     "failed_commit_replayed_after_reopen": "C15",
     "later_commit_refused": "C15",
@@ -139,6 +142,15 @@ def close_race(ctx):
         _report(ctx, s, "close_race", args)
 
 
+def visibility_stress(ctx, runs):
+    """hook-free: committers with tiny memtables (constant rotation / flush / compaction) and readers that begin right
+    after an acknowledgement and must see it, whole and stable"""
+    for i in range(runs):
+        s = core.run_driver("visibility_stress", ["--commits", 6000, "--committers", 1 + i % 3, "--readers", 4], timeout=600)
+        ctx.add_driver(s)
+        _report(ctx, s, "visibility_stress", ["--commits", 6000, "--committers", 1 + i % 3])
+
+
 def size_sweep(ctx, cases):
     s = core.run_driver("commit_size_sweep", ["--seed", ctx.seed, "--cases", cases], timeout=1200)
     ctx.add_driver(s)
@@ -147,6 +159,10 @@ def size_sweep(ctx, cases):
 
 
 def replay(ctx, rp):
+    if rp.get("driver") == "visibility_stress":
+        s = core.run_driver("visibility_stress", rp.get("args", []))
+        _report(ctx, s, "visibility_stress", rp.get("args", []))
+        return
     if rp.get("driver") == "close_race":
         s = core.run_driver("close_race", rp.get("args", []))
         _report(ctx, s, "close_race", rp.get("args", []))
